@@ -134,6 +134,26 @@ func (x *Run) model(fr *Frame, st *State, fn *ssa.Function, args []Val, site ssa
 		r := x.ufApply(st, "ext."+x.fnShort(fn), args, fn.Signature.Results())
 		st.assume(fmt.Sprintf("(and (>= %s (- 1)) (< %s (strlen %s)))", r.T, r.T, args[0].T))
 		return single(st, r), true
+	case "strings.Count_never":
+		return nil, false
+	}
+	if strings.HasPrefix(name, frpPrefix+"/pkg/util/util.EmptyOr[") && len(args) == 2 && args[0].S == args[1].S && (args[0].S == SInt || args[0].S == SStr || args[0].S == SBool) && args[0].Clo == nil && args[1].Clo == nil && !isRefType(fn.Signature.Results().At(0).Type()) {
+		// util.EmptyOr(v, fallback): fallback when v is the zero value, else v -
+		// one value instead of two paths (the function is a single comparison)
+		rt := fn.Signature.Results().At(0).Type()
+		zero := x.d.zero(rt)
+		if eq(args[0].T, zero) == "true" {
+			return single(st, args[1]), true
+		}
+		r := args[0]
+		r.T = ite(eq(args[0].T, zero), args[1].T, args[0].T)
+		r.Addr, r.Inner, r.Fresh, r.Origin = nil, nil, false, ""
+		if _, isPtr := types.Unalias(rt).Underlying().(*types.Pointer); isPtr {
+			r.MaybeNil = args[0].MaybeNil && args[1].MaybeNil
+		}
+		return single(st, r), true
+	}
+	switch name {
 	case "strings.Count":
 		// library contract: non-overlapping occurrences of a non-empty
 		// separator fit into the string (r * len(sep) <= len(s), r >= 0)
